@@ -188,7 +188,9 @@ impl Scenario for CryptSc {
             const HIGH_T: [i64; 13] = [41, 63, 64, 65, 66, 100, 127, 128, 129, 200, 253, 254, 255];
             let ti = (index / 2) % 52;
             p.set("t", if ti < 39 { 2 + ti as i64 } else { HIGH_T[(ti - 39) as usize] });
-            p.set("n", if (index / 104) % 2 == 0 { 255 } else { 254 });
+            let n_ext: i64 = if (index / 104) % 2 == 0 { 255 } else { 254 };
+            p.set("n", n_ext);
+            p.set("t", p.get("t").min(n_ext));
             p.set("scheme", ((index / 2) % 3) as i64);
         }
         p
